@@ -1944,6 +1944,14 @@ class SymEval:
         return self.block(s.finalbody, out) if s.finalbody else out
 
     def s_With(self, s, p):
+        # `with contextlib.suppress(E1, ...): body` is `try: body / except (E1, ...): pass`
+        if len(s.items) == 1 and isinstance(s.items[0].context_expr, ast.Call) and self.resolve_global(s.items[0].context_expr.func) == 'contextlib.suppress' \
+                and not s.items[0].context_expr.keywords and s.items[0].optional_vars is None:
+            typ = ast.Tuple(elts=list(s.items[0].context_expr.args), ctx=ast.Load())
+            t = ast.Try(body=s.body, handlers=[ast.ExceptHandler(type=typ, name=None, body=[ast.Pass()])], orelse=[], finalbody=[])
+            ast.copy_location(t, s)
+            ast.fix_missing_locations(t)
+            return self.s_Try(t, p)
         for it in s.items:
             cm = self.ev(it.context_expr, p)
             if isinstance(cm, PyStub) and hasattr(cm, '__enter__'):
